@@ -136,7 +136,8 @@ Section thms.
       [|intro H; inversion H; reflexivity|unfold render_failure; destruct (andb _ _); intro H; inversion H; reflexivity].
     destruct (exec_mod t st ext) as [evs' r|evs' msg|] eqn:Em.
     - apply exec_mod_keeps_store in Em; [|assumption].
-      destruct (match t_changed_when t with Some _ => _ | None => _ end); [|discriminate].
+      destruct (match t_changed_when t with Some _ => _ | None => _ end);
+        [|destruct (andb _ _); intro H; inversion H; reflexivity].
       rewrite Hr, Em. intro H; inversion H; reflexivity.
     - destruct (t_ignore t); intro H; inversion H; reflexivity.
     - unfold render_failure; destruct (andb _ _); intro H; inversion H; reflexivity.
@@ -146,13 +147,12 @@ Section thms.
   Theorem register_visible t st ext evs r reg evs' st' :
     extend_vars t st = Some ext ->
     (match t_when t with Some e => cond ext e | None => Some true end) = Some true ->
-    exec_mod t st ext = MOk evs r -> t_register t = Some reg ->
+    exec_mod t st ext = MOk evs r -> t_register t = Some reg -> t_changed_when t = None ->
     exec_module t st = (evs', Ok st') ->
     lookup st' reg = result_val (m_changed r) (m_output r) (m_extra r) /\
     forall k, k <> reg -> lookup st' k = lookup (m_vars r) k.
   Proof.
-    intros H1 H2 H3 H4. unfold Engine.exec_module. rewrite H1, H2, H3, H4.
-    destruct (match t_changed_when t with Some _ => _ | None => _ end); [|discriminate].
+    intros H1 H2 H3 H4 H5. unfold Engine.exec_module. rewrite H1, H2, H3, H4, H5.
     intro H; inversion H; subst. split; [apply lookup_cons_same|intros k Hk; apply lookup_cons_other; congruence].
   Qed.
 
@@ -310,3 +310,43 @@ Example chain_example :
   ([EvOut "i=x"; EvOut "i=z"; EvEffect "k"; EvOut ""; EvEffect "k2"; EvOut "out"],
    Ok [("item", VStr "z"); ("item", VStr "y"); ("item", VStr "x")]).
 Proof. vm_compute. reflexivity. Qed.
+
+
+(* ------------------------------------------------------------ the property text, positively *)
+(* With the property-text switches nothing that happens inside a task with ignore_errors: true can
+   end the run: whatever fails (rendering vars / when / parameters / loop / changed_when, the module,
+   an included file) is logged and the run goes on. Together with stop_at_first_failure: a run ends
+   early only at a task WITHOUT ignore_errors. (False of the mirror: K5.) *)
+Lemma spec_module_ignored root fs run_inc t st :
+  t_ignore t = true -> snd (exec_module spec_quirks root fs run_inc t st) <> Fail.
+Proof.
+  intro Hi. unfold Engine.exec_module, render_failure. cbn [q_render_not_ignorable q_no_task_vars spec_quirks negb andb].
+  rewrite Hi. cbn [andb].
+  destruct (extend_vars t st) as [ext|]; [|discriminate].
+  destruct (match t_when t with Some e => cond ext e | None => Some true end) as [[|]|]; try discriminate.
+  destruct (exec_mod spec_quirks root fs run_inc t st ext) as [evs r|evs msg|]; try discriminate.
+  destruct (match t_changed_when t with Some _ => _ | None => _ end); discriminate.
+Qed.
+
+Lemma spec_items_ignored root fs run_inc t its : forall ctx,
+  t_ignore t = true -> snd (exec_items spec_quirks root fs run_inc t its ctx) <> Fail.
+Proof.
+  induction its as [|it r IH]; intros ctx Hi; cbn; [discriminate|].
+  pose proof (spec_module_ignored root fs run_inc t (("item"%string, VStr it) :: ctx) Hi) as Hm.
+  destruct (Engine.exec_module spec_quirks root fs run_inc t (("item"%string, VStr it) :: ctx)) as [e [c|]]; [|now cbn in Hm].
+  cbn [q_item_leaks spec_quirks].
+  specialize (IH (remove_nth (List.length c - List.length ctx - 1) c) Hi).
+  destruct (Engine.exec_items spec_quirks root fs run_inc t r _) as [e2 [c2|]]; [discriminate|now cbn in IH].
+Qed.
+
+Theorem spec_only_unignored_tasks_end_the_run root fs run_inc t st evs :
+  exec_task spec_quirks root fs run_inc t st = (evs, Fail) -> t_ignore t = false.
+Proof.
+  intro H. destruct (t_ignore t) eqn:Hi; [exfalso|reflexivity].
+  unfold Engine.exec_task in H. destruct (t_loop t) as [items|].
+  - unfold render_failure in H. cbn [q_render_not_ignorable spec_quirks negb andb] in H. rewrite Hi in H. cbn [andb] in H.
+    destruct (extend_vars t (("item"%string, VStr ""%string) :: st)) as [ext|]; [|discriminate].
+    destruct (render_items ext items) as [its|]; [|discriminate].
+    pose proof (spec_items_ignored root fs run_inc t its st Hi) as N. rewrite H in N. now cbn in N.
+  - pose proof (spec_module_ignored root fs run_inc t st Hi) as N. rewrite H in N. now cbn in N.
+Qed.
